@@ -28,11 +28,11 @@ theorem params_sem (j : Nat) : ∀ (ps : List Var) (vals : List Val) (i : Nat) (
     ∃ m', ExecCmds ((paramLinesF j (ps.map (·.name)) i).map Cmd.simple) m .normal m' ∧
       (∀ x v, bindParams env0 ps vals x = some v → m'.ρ (fnPrefix j ++ x) = v.render) ∧
       (∀ y, (∀ a, y ≠ fnPrefix j ++ a) → m'.ρ y = m.ρ y) ∧ m'.out = m.out ∧ m'.funs = m.funs ∧ m'.args = m.args ∧
-      (∀ p ∈ m'.saved, (∃ a, p.1 = fnPrefix j ++ a) ∨ p ∈ m.saved)
+      (∀ p ∈ m'.saved, (∃ a, p.1 = fnPrefix j ++ a) ∨ p ∈ m.saved) ∧ m'.arr = m.arr
   | [], vals, i, m, pre, env0, _, _, hl, henv => by
     have : vals = [] := List.eq_nil_of_length_eq_zero (by simpa using hl)
     subst this
-    exact ⟨m, by simp [paramLinesF]; exact ExecCmds.nil, by simpa [bindParams] using henv, fun _ _ => rfl, rfl, rfl, rfl, fun p hp => Or.inr hp⟩
+    exact ⟨m, by simp [paramLinesF]; exact ExecCmds.nil, by simpa [bindParams] using henv, fun _ _ => rfl, rfl, rfl, rfl, fun p hp => Or.inr hp, rfl⟩
   | x :: xs, vals, i, m, pre, env0, ha, hp, hl, henv => by
     match vals, hl with
     | v :: vs, hl =>
@@ -54,9 +54,9 @@ theorem params_sem (j : Nat) : ∀ (ps : List Var) (vals : List Val) (i : Nat) (
           show (m.ρ.set _ _) _ = _
           rw [Sem.set_other _ _ _ _ (fun e' => e (fnPrefix_inj e').2)]
           exact henv y w hy
-      obtain ⟨m', ex, hb, hfr, ho, hfu, har, hsv⟩ := params_sem j xs vs (i + 1) m1 (pre ++ [v]) (env0.set x.name v)
+      obtain ⟨m', ex, hb, hfr, ho, hfu, har, hsv, harr⟩ := params_sem j xs vs (i + 1) m1 (pre ++ [v]) (env0.set x.name v)
         (by show m.args = _; rw [ha]; simp) (by simp [hp]) (by simpa using hl) henv1
-      refine ⟨m', ?_, by simpa [bindParams] using hb, ?_, ho, hfu, har, ?_⟩
+      refine ⟨m', ?_, by simpa [bindParams] using hb, ?_, ho, hfu, har, ?_, harr⟩
       · simp only [List.map_cons, paramLinesF]
         exact ExecCmds.cons (ExecCmd.simple rfl hst) ex
       · intro y hy
@@ -88,21 +88,23 @@ theorem bindParams_good : ∀ (ps : List Var) (vals : List Val) (env0 : Env) (x 
 
 /-- names the context `ctx` of a function owns are in what the function may touch -/
 theorem ownT_touched {j hi b : Nat} (hb : hi ≤ b) {x : String} (h : OwnT ⟨true, j⟩ hi x) : Touched j b x := by
-  rcases h with ⟨k, rfl⟩ | ⟨k, rfl⟩ | ⟨v, g, hg, rfl⟩ | ⟨i, rfl⟩ | ⟨n, hn, rfl⟩
+  rcases h with ⟨k, rfl⟩ | ⟨k, rfl⟩ | ⟨v, g, hg, rfl⟩ | ⟨i, rfl⟩ | ⟨n, hn, rfl⟩ | hsp
   · exact Or.inl ⟨j, helperName k, Nat.le_refl _, by simp [Ctx.hn, Ctx.mg]⟩
   · exact Or.inl ⟨j, tmpName k, Nat.le_refl _, by simp [Ctx.tn, Ctx.mg]⟩
   · cases g with
     | true => exact Or.inr (Or.inr (Or.inl (by simpa [Ctx.mg] using hg)))
     | false => exact Or.inl ⟨j, v, Nat.le_refl _, by simp [Ctx.mg]⟩
   · exact Or.inr (Or.inl ⟨i, rfl⟩)
-  · exact Or.inr (Or.inr (Or.inr ⟨n, by omega, rfl⟩))
+  · exact Or.inr (Or.inr (Or.inr (Or.inl ⟨n, by omega, rfl⟩)))
+  · exact Or.inr (Or.inr (Or.inr (Or.inr hsp)))
 
 theorem touched_mono {j j' b b' : Nat} (hj : j ≤ j') (hb : b ≤ b') {x : String} (h : Touched j b x) : Touched j' b' x := by
-  rcases h with ⟨i, a, hi, rfl⟩ | h | h | ⟨n, hn, rfl⟩
+  rcases h with ⟨i, a, hi, rfl⟩ | h | h | ⟨n, hn, rfl⟩ | hsp
   · exact Or.inl ⟨i, a, by omega, rfl⟩
   · exact Or.inr (Or.inl h)
   · exact Or.inr (Or.inr (Or.inl h))
-  · exact Or.inr (Or.inr (Or.inr ⟨n, by omega, rfl⟩))
+  · exact Or.inr (Or.inr (Or.inr (Or.inl ⟨n, by omega, rfl⟩)))
+  · exact Or.inr (Or.inr (Or.inr (Or.inr hsp)))
 
 /-- from the static facts of a context to the static condition of the frame lemma -/
 theorem linesOK_SL {j hi b : Nat} (hb : hi ≤ b) {ds : List String} {ls : List Line} (Q : String → Prop) (h : LinesOK ⟨true, j⟩ hi ds ls) :
